@@ -53,6 +53,12 @@ impl CopyHandle {
             return Err(XcpError::InvalidDestination("Source and destination are the same file.").into());
         }
 
+        // A dangling symbolic link at the destination would be written
+        // through, creating its target somewhere else.
+        if !to.try_exists()? && entry_exists(to)? {
+            return Err(XcpError::InvalidDestination("Not writing through a dangling symbolic link.").into());
+        }
+
         if needs_backup(to, config)? {
             let backup = get_backup_path(to)?;
             info!("Backup: Rename {:?} to {:?}", to, backup);
